@@ -2,6 +2,7 @@ SPECIFICATION Spec
 CONSTANTS MaxOps = 1
           MaxClock = 0
           Small = TRUE
+          Tiny = FALSE
 INVARIANT FramesBound
 INVARIANT FrameCount
 INVARIANT BlockSizes
